@@ -69,8 +69,8 @@ pub fn scenarios() -> Vec<(&'static str, Vec<Step>)> {
         ("archive-without-format-version", vec![W(0, "f", "v1"), W(0, "keep", "k"), S, D(1, "f"), W(1, "keep", "changed"), ArchiveFault(8), S]),
         ("archive-without-epoch", vec![W(0, "f", "v1"), S, D(1, "f"), ArchiveFault(9), S]),
         ("archive-without-host-id", vec![W(0, "f", "v1"), S, D(0, "f"), ArchiveFault(10), S]),
-        ("the-same-pair-under-another-spelling-and-back (symlinked root)", vec![W(0, "f", "v1"), W(0, "g", "g1"), S, W(0, "f", "v2"), SVia(1), W(0, "f", "v1"), S, S]),
-        ("the-same-pair-under-another-spelling-and-back (dot-dot spelling)", vec![W(0, "f", "v1"), S, D(1, "f"), SVia(2), W(0, "f", "v1"), S, S]),
+        ("the-same-pair-under-another-spelling-and-back (symlinked root)", vec![W(0, "f", "v1"), W(0, "g", "g1"), S, SVia(1), W(0, "f", "v2"), SVia(1), W(0, "f", "v1"), W(1, "f", "v3-from-B"), S, S]),
+        ("the-same-pair-under-another-spelling-and-back (dot-dot spelling)", vec![W(0, "q", "q1"), W(0, "keep", "k"), S, SVia(2), D(0, "q"), SVia(2), W(1, "q", "q1"), S, S]),
         ("archive-with-a-blank-pair-id", vec![W(0, "f", "v1"), W(0, "k", "k"), S, D(1, "f"), W(1, "k", "changed"), ArchiveFault(11), S]),
         ("archive-with-a-clipped-pair-id", vec![W(0, "f", "v1"), S, D(0, "f"), ArchiveFault(12), S]),
         ("dry-run-with-only-the-backup-archive-left", vec![W(0, "keep", "k1"), S, W(0, "x", "x1"), S, W(1, "x", "x2"), ArchiveFault(5), Dry, Dry]),
@@ -144,7 +144,7 @@ pub fn run_history_all(name: &str, steps: &[Step]) -> Vec<String> {
                 let other = env.tree(1 - *s);
                 let f = env.side(*s).join(p); if let Some(d) = f.parent() { let _ = std::fs::create_dir_all(d); } let _ = std::fs::write(f, c);
                 let other2 = env.tree(1 - *s);
-                if other2 != other { let q: Vec<&String> = other.keys().filter(|k| other.get(*k) != other2.get(*k)).collect(); bad!(format!("[{name}] step {si}: writing `{p}` in place on side {} changed {q:?} on the OTHER side: the two replicas share storage (a delivered file is the same inode on both sides), so the other side's version is gone without any run (C02)", if *s == 0 { "A" } else { "B" })); }
+                if other2 != other { let q: Vec<&String> = other.keys().filter(|k| other.get(*k) != other2.get(*k)).collect(); bad!(format!("[{name}] step {si}: writing `{p}` in place on side {} changed {q:?} on the OTHER side: the two replicas share storage (a delivered file is the same inode on both sides), so the other side's version is gone without any run, and a divergent edit can no longer exist (C02) (C06)", if *s == 0 { "A" } else { "B" })); }
             }
             D(s, p) => { let _ = std::fs::remove_file(env.side(*s).join(p)); }
             EditConflictCopy(s, c) => { for (p, _) in env.tree(*s) { if p.contains(".conflict-") { let _ = std::fs::write(env.side(*s).join(&p), c); } } }
